@@ -1,5 +1,5 @@
 (* C13/Witness.v — non-vacuity examples (vm_compute). *)
-From Verif Require Import Common.Base C13.Model C13.Spec C13.Proofs1 C13.Proofs2 C13.Proofs3 C13.Proofs4 C13.Instances.
+From Verif Require Import Common.Base C13.Model C13.Spec C13.Proofs1 C13.Proofs2 C13.Proofs3 C13.Proofs4 C13.Proofs5 C13.Instances.
 From Verif Require Import Generated.C13CfgSchema.
 From Coq Require Import String.
 Open Scope string_scope.
@@ -156,3 +156,23 @@ Example new_rule_alias :
   tv_get ["sending_queue"; "block_on_overflow"]
     (decode_model "exporters/otlp" d_q (CMap [("sending_queue", CMap [("blocking", CScalar "true")])])) = Some (VSc "true").
 Proof. vm_compute. reflexivity. Qed.
+
+(* ---- effective configuration -------------------------------------------------------------- *)
+Definition e1 : ev :=
+  ERec [("endpoint", EPlain "a:1");
+        ("headers", EStrMap true [("Authorization", "token-1"); ("X-K", "token-2")]);
+        ("tls", ERec [("key_pem", EOpaque "pem"); ("ca_file", EPlain "f")]);
+        ("metadata_keys", EStrList false ["a"; "b"])].
+
+Example e1_encode : encode e1 =
+  CMap [("endpoint", CScalar "a:1");
+        ("headers", CMap [("Authorization", CScalar "[REDACTED]"); ("X-K", CScalar "[REDACTED]")]);
+        ("tls", CMap [("key_pem", CScalar "[REDACTED]"); ("ca_file", CScalar "f")]);
+        ("metadata_keys", CList [CScalar "a"; CScalar "b"])].
+Proof. vm_compute. reflexivity. Qed.
+
+Example e1_no_token : ~ In "token-1" (cv_scalars (encode e1)).
+Proof. vm_compute. intuition discriminate. Qed.
+
+Example e1_hyp : ev_get ["headers"] e1 = Some (EStrMap true [("Authorization", "token-1"); ("X-K", "token-2")]).
+Proof. reflexivity. Qed.
